@@ -30,3 +30,39 @@ def consumeB : List CEv → Bytes → Option Bytes
   | .back b :: es, S => consumeB es (b ++ S)
 
 end Scrapli.Queue.Chan
+
+/-! ## value semantics of an enqueued chunk
+
+The model's queue holds byte strings (values). The Go queue holds slices; the model is only right if
+what `Channel.read` enqueues is a private copy of the transport's bytes — `bytes.ReplaceAll` always
+allocates, so it is. `Aliased` spells out what would happen otherwise: a transport may hand out
+views of ONE buffer that the next `Read` overwrites (the `Implementation` interface does not promise a
+fresh slice); an entry that was not copied is then a view that is resolved only when it is dequeued. -/
+namespace Scrapli.Queue.Chan.Aliased
+open Scrapli
+
+/-- a queued entry: a private copy, or a view of the first `len` bytes of the transport's buffer -/
+inductive Entry where
+  | val (b : Bytes)
+  | view (len : Nat)
+  deriving Repr, DecidableEq
+
+/-- the transport writes its next read over the start of its buffer -/
+def overwrite (buf r : Bytes) : Bytes := r ++ buf.drop r.length
+
+/-- the read loop over a buffer-reusing transport: `copies r` says whether the normalisation of the
+read `r` allocates. Returns the entries (oldest first) and the buffer as the last read left it. -/
+def loop (copies : Bytes → Bool) (norm : Bytes → Bytes) : List Bytes → Bytes → List Entry × Bytes
+  | [], buf => ([], buf)
+  | r :: rs, buf =>
+    let buf' := overwrite buf r
+    let (es, bufEnd) := loop copies norm rs buf'
+    if r.isEmpty then (es, bufEnd)
+    else ((if copies r then Entry.val (norm r) else Entry.view r.length) :: es, bufEnd)
+
+/-- what a consumer sees when it dequeues an entry while the buffer holds `buf` -/
+def resolve (buf : Bytes) : Entry → Bytes
+  | .val b => b
+  | .view n => buf.take n
+
+end Scrapli.Queue.Chan.Aliased
